@@ -139,6 +139,7 @@ Qed.
 Definition vis_eq (G G' : store) : Prop :=
   forall c a, cache c a = false -> lookup_v T G' c a = lookup_v T G c a.
 
+Strategy opaque [QFUEL conc explore symA symB].
 Theorem run_inv : forall p G G' o tr,
   prog_ok T comp cache p = true -> run T p G = (G', o, tr) ->
   o <> OStuck /\ vis_eq G G' /\
